@@ -352,7 +352,9 @@ class CPV(base.base):
             sf(self, "package", "-".join(pkg_chunks))
 
     def __hash__(self):
-        return hash(self.cpvstr)
+        # versions that compare equal may be spelled differently (1.0, 1.00),
+        # so the spelling can't be part of the hash
+        return hash((self.category, self.package))
 
     def __repr__(self):
         return f"<{self.__class__.__name__} cpvstr={getattr(self, 'cpvstr', None)} @{id(self):#8x}>"
